@@ -17,15 +17,18 @@ def digitsVal (cs : List Char) : Nat := cs.foldl (fun acc c => acc * 10 + digVal
 
 def allDigits (cs : List Char) : Bool := !cs.isEmpty && cs.all isDig
 
+/-- optional sign of `strconv.ParseInt` -/
+def signSplit : List Char → Bool × List Char
+  | '-' :: r => (true, r)
+  | '+' :: r => (false, r)
+  | r => (false, r)
+
 /-- `strconv.ParseInt(s, 10, 64)`: optional sign, at least one digit, in range. -/
 def parseInt64 (cs : List Char) : Option Int :=
-  let (neg, ds) := match cs with
-    | '-' :: r => (true, r)
-    | '+' :: r => (false, r)
-    | r => (false, r)
-  if allDigits ds then
-    let v : Int := digitsVal ds
-    let v := if neg then -v else v
+  let p := signSplit cs
+  if allDigits p.2 then
+    let v : Int := digitsVal p.2
+    let v := if p.1 then -v else v
     if minI64 ≤ v ∧ v ≤ maxI64 then some v else none
   else none
 
@@ -72,7 +75,17 @@ def parseDecimal (s : String) : Except Err Int := parseDecimalL s.toList
 def padLeft (n : Nat) (c : Char) (cs : List Char) : List Char :=
   List.replicate (n - cs.length) c ++ cs
 
-def natDigits (n : Nat) : List Char := (Nat.repr n).toList
+/-- the decimal digit character of `d < 10` -/
+def digitChar (d : Nat) : Char := Char.ofNat (48 + d)
+
+/-- decimal digits of `n`, most significant first, by structural recursion on fuel -/
+def natDigitsF : Nat → Nat → List Char
+  | 0, _ => []
+  | f + 1, n => if n < 10 then [digitChar n] else natDigitsF f (n / 10) ++ [digitChar (n % 10)]
+
+/-- `strconv.FormatUint(n, 10)` / `fmt` `%d` of a non-negative number (own digit function;
+    fuel `n + 1` always suffices, see `natDigits_lt`/`natDigits_ge` in the C12 lemmas) -/
+def natDigits (n : Nat) : List Char := natDigitsF (n + 1) n
 
 /-- strip up to three trailing zeros (`Decimal.String`) -/
 def trimZeros3 (cs : List Char) : List Char :=
@@ -83,12 +96,39 @@ def trimZeros3 (cs : List Char) : List Char :=
     | _, r => r
   (go 3 r).reverse
 
-/-- `Decimal.String` -/
-def printDecimal (d : Int) : String :=
+/-- `Decimal.String` on character lists -/
+def printDecimalL (d : Int) : List Char :=
   let a := d.natAbs
   let body := natDigits (a / 10000) ++ ['.'] ++ padLeft 4 '0' (natDigits (a % 10000))
   let body := trimZeros3 body
-  String.ofList (if d < 0 then '-' :: body else body)
+  if d < 0 then '-' :: body else body
+
+/-- `Decimal.String` -/
+def printDecimal (d : Int) : String := String.ofList (printDecimalL d)
+
+/-- Go `int16(x)` of an `int64` -/
+def wrap16 (x : Int) : Int := (x + 32768) % 65536 - 32768
+
+/-- `types.NewDecimal(i, exponent)`, literally: `int64(math.Pow10(k))` is exact for `k ≤ 18`;
+    for a positive exponent the product wraps and the overflow test is Go's (unsound) `intPart < i`. -/
+def newDecimalExp (i : Int) (exponent : Int) : Except Err Int :=
+  if exponent < -4 || exponent > 14 then .error .extDecimal else
+  if exponent ≤ 0 then
+    let p : Int := 10 ^ (-exponent).toNat
+    let intPart := Int.tdiv i p
+    let fracPart := wrap (Int.tmod i p * 10 ^ (4 + exponent).toNat)
+    newDecimal intPart (wrap16 fracPart)
+  else
+    let intPart := wrap (i * 10 ^ exponent.toNat)
+    if i > 0 && intPart < i then .error .extDecimal
+    else if i < 0 && intPart > i then .error .extDecimal
+    else newDecimal intPart (wrap16 0)
+
+/-! ## Long (`fmt.Sprint(int64)` / `strconv.ParseInt`) -/
+
+def printLongL (n : Int) : List Char := if n < 0 then '-' :: natDigits n.natAbs else natDigits n.natAbs
+def printLong (n : Int) : String := String.ofList (printLongL n)
+def parseLong (s : String) : Option Int := parseInt64 s.toList
 
 /-! ## Duration -/
 
@@ -128,18 +168,22 @@ def durLoop : List Char → (unitI : Nat) → (total value : Int) → (hasValue 
 def parseDurationL (cs : List Char) : Except Err Int :=
   -- Go: len(s) <= 1 in bytes; a one-character non-ASCII string passes that test and is rejected later
   if cs.length ≤ 1 then .error .extDuration else
-  match cs with
-  | '-' :: rest => (durLoop rest 0 0 0 false).map (fun t => -t)
-  | _ => durLoop cs 0 0 0 false
+  if cs.head? == some '-' then (durLoop cs.tail 0 0 0 false).map (fun t => -t)
+  else durLoop cs 0 0 0 false
 
 def parseDuration (s : String) : Except Err Int := parseDurationL s.toList
 
+def unitChars : Nat → List Char
+  | 0 => ['d'] | 1 => ['h'] | 2 => ['m'] | 3 => ['s'] | _ => ['m', 's']
+
+/-- one `if q > 0 { FormatInt(q); unit }` block of `Duration.String` -/
+def durPart (q : Int) (idx : Nat) : List Char := if q > 0 then natDigits q.toNat ++ unitChars idx else []
+
 /-- `Duration.String` (Go negates with wrap-around, so MinInt64 prints as "-") -/
-def printDuration (d : Int) : String :=
-  if d == 0 then "0ms" else
+def printDurationL (d : Int) : List Char :=
+  if d == 0 then ['0', 'm', 's'] else
   let rem0 : Int := if d < 0 then wrap (-d) else d
-  let sign := if d < 0 then "-" else ""
-  let part (q : Int) (u : String) : String := if q > 0 then toString q ++ u else ""
+  let sign : List Char := if d < 0 then ['-'] else []
   let days := Int.tdiv rem0 86400000
   let r1 := Int.tmod rem0 86400000
   let hours := Int.tdiv r1 3600000
@@ -148,7 +192,9 @@ def printDuration (d : Int) : String :=
   let r3 := Int.tmod r2 60000
   let secs := Int.tdiv r3 1000
   let r4 := Int.tmod r3 1000
-  sign ++ part days "d" ++ part hours "h" ++ part mins "m" ++ part secs "s" ++ part r4 "ms"
+  sign ++ (durPart days 0 ++ (durPart hours 1 ++ (durPart mins 2 ++ (durPart secs 3 ++ durPart r4 4))))
+
+def printDuration (d : Int) : String := String.ofList (printDurationL d)
 
 /-! ## Datetime -/
 
@@ -202,80 +248,98 @@ def minDatetimeMs : Int := daysFromCivil (-292275055) 5 17 * 86400000 + 16 * 360
 /-- `maxDatetime = time.Date(292278994, 8, 17, 7, 12, 55, 807ms)` -/
 def maxDatetimeMs : Int := daysFromCivil 292278994 8 17 * 86400000 + 7 * 3600000 + 12 * 60000 + 55 * 1000 + 807
 
-/-- `types.ParseDatetime`; result in milliseconds since the epoch -/
-def parseDatetimeL (cs : List Char) : Except Err Int :=
-  let E : Except Err Int := .error .extDatetime
+/-- year header of `ParseDatetime`: sign, year width, year maximum, remaining text -/
+def dtHeader (cs : List Char) : Option (Int × Nat × Nat × List Char) :=
   match cs with
-  | [] => E
+  | [] => none
   | c0 :: _ =>
-  let hdr : Option (Int × Nat × Nat × List Char) :=
     if c0 == '+' || c0 == '-' then some ((if c0 == '-' then -1 else 1), 9, 999999999, cs.drop 1)
     else if isDig c0 then some (1, 4, 9999, cs)
     else none
-  match hdr with
-  | none => E
-  | some (ysign, ylen, ymax, s) =>
-  match takeUint s ylen ymax with
-  | none => E
-  | some (absYear, s) =>
-  let year : Int := (absYear : Int) * ysign
-  match expectCh '-' s with
-  | none => E
-  | some s =>
+
+/-- `MM-DD` and `checkValidDay` for a known year: (year, month, day, rest) -/
+def dtMonthDay (year : Int) (s : List Char) : Option (Int × Nat × Nat × List Char) :=
   match takeUint s 2 12 with
-  | none => E
+  | none => none
   | some (month, s) =>
   match expectCh '-' s with
-  | none => E
+  | none => none
   | some s =>
   match takeUint s 2 31 with
-  | none => E
+  | none => none
   | some (day, s) =>
-  if !(1 ≤ month && 1 ≤ day && day ≤ daysInMonth year month) then E else
+  if !(1 ≤ month && 1 ≤ day && day ≤ daysInMonth year month) then none else some (year, month, day, s)
+
+/-- the `YYYY-MM-DD` / `±YYYYYYYYY-MM-DD` prefix incl. `checkValidDay`: (year, month, day, rest) -/
+def dtDate (cs : List Char) : Option (Int × Nat × Nat × List Char) :=
+  match dtHeader cs with
+  | none => none
+  | some (ysign, ylen, ymax, s) =>
+  match takeUint s ylen ymax with
+  | none => none
+  | some (absYear, s) =>
+  match expectCh '-' s with
+  | none => none
+  | some s => dtMonthDay ((absYear : Int) * ysign) s
+
+/-- `hh:mm:ss` and the optional `.SSS`: (hour, minute, second, milli, rest) -/
+def dtTime (s : List Char) : Option (Nat × Nat × Nat × Nat × List Char) :=
+  match takeUint s 2 23 with
+  | none => none
+  | some (hour, s) =>
+  match expectCh ':' s with
+  | none => none
+  | some s =>
+  match takeUint s 2 59 with
+  | none => none
+  | some (minute, s) =>
+  match expectCh ':' s with
+  | none => none
+  | some s =>
+  match takeUint s 2 59 with
+  | none => none
+  | some (second, s) =>
+  match s with
+  | '.' :: r =>
+    (match takeUint r 3 999 with
+     | none => none
+     | some (milli, s) => some (hour, minute, second, milli, s))
+  | _ => some (hour, minute, second, 0, s)
+
+/-- time zone designator: `Z` or `±hhmm`; (offset in ms, rest) -/
+def dtOffset (s : List Char) : Option (Int × List Char) :=
+  match s with
+  | 'Z' :: r => some (0, r)
+  | c :: r =>
+    if c == '+' || c == '-' then
+      match takeUint r 2 23 with
+      | none => none
+      | some (hh, r) =>
+        match takeUint r 2 59 with
+        | none => none
+        | some (mm, r) =>
+          let o : Int := ((hh : Int) * 60 + (mm : Int)) * 60000
+          some ((if c == '-' then -o else o), r)
+    else none
+  | [] => none
+
+/-- `types.ParseDatetime`; result in milliseconds since the epoch -/
+def parseDatetimeL (cs : List Char) : Except Err Int :=
+  let E : Except Err Int := .error .extDatetime
+  match dtDate cs with
+  | none => E
+  | some (year, month, day, s) =>
   let dayMs : Int := daysFromCivil year month day * 86400000
   if s.isEmpty then .ok (wrap dayMs)      -- date-only path: no range check in Go, UnixMilli wraps
   else
   match expectCh 'T' s with
   | none => E
   | some s =>
-  match takeUint s 2 23 with
+  match dtTime s with
   | none => E
-  | some (hour, s) =>
-  match expectCh ':' s with
-  | none => E
-  | some s =>
-  match takeUint s 2 59 with
-  | none => E
-  | some (minute, s) =>
-  match expectCh ':' s with
-  | none => E
-  | some s =>
-  match takeUint s 2 59 with
-  | none => E
-  | some (second, s) =>
-  let ms? : Option (Nat × List Char) :=
-    match s with
-    | '.' :: r => takeUint r 3 999
-    | _ => some (0, s)
-  match ms? with
-  | none => E
-  | some (milli, s) =>
-  let off? : Option (Int × List Char) :=
-    match s with
-    | 'Z' :: r => some (0, r)
-    | c :: r =>
-      if c == '+' || c == '-' then
-        match takeUint r 2 23 with
-        | none => none
-        | some (hh, r) =>
-          match takeUint r 2 59 with
-          | none => none
-          | some (mm, r) =>
-            let o : Int := ((hh : Int) * 60 + (mm : Int)) * 60000
-            some ((if c == '-' then -o else o), r)
-      else none
-    | [] => none
-  match off? with
+  | some (hour, minute, second, milli, s) =>
+  -- Go: `len(s) == 0` after the seconds / after the milliseconds is an error, as is any other designator
+  match dtOffset s with
   | none => E
   | some (offset, s) =>
   if !s.isEmpty then E else
@@ -285,10 +349,12 @@ def parseDatetimeL (cs : List Char) : Except Err Int :=
 
 def parseDatetime (s : String) : Except Err Int := parseDatetimeL s.toList
 
-def pad (n : Nat) (v : Nat) : String := String.ofList (padLeft n '0' (natDigits v))
+/-- `%0nd` of a non-negative number -/
+def padL (n : Nat) (v : Nat) : List Char := padLeft n '0' (natDigits v)
+def pad (n : Nat) (v : Nat) : String := String.ofList (padL n v)
 
-/-- `Datetime.String` -/
-def printDatetime (ms : Int) : String :=
+/-- `Datetime.String` on character lists -/
+def printDatetimeL (ms : Int) : List Char :=
   let days := ms / 86400000            -- floor
   let rem := (ms - days * 86400000).toNat
   let (y, m, d) := civilFromDays days
@@ -296,9 +362,12 @@ def printDatetime (ms : Int) : String :=
   let mi := rem % 3600000 / 60000
   let ss := rem % 60000 / 1000
   let ml := rem % 1000
-  let time := pad 2 m ++ "-" ++ pad 2 d ++ "T" ++ pad 2 hh ++ ":" ++ pad 2 mi ++ ":" ++ pad 2 ss ++ "." ++ pad 3 ml ++ "Z"
-  if 0 ≤ y && y ≤ 9999 then pad 4 y.toNat ++ "-" ++ time
-  else (if y < 0 then "-" else "+") ++ pad 9 y.natAbs ++ "-" ++ time
+  let time := padL 2 m ++ ('-' :: (padL 2 d ++ ('T' :: (padL 2 hh ++ (':' :: (padL 2 mi ++ (':' :: (padL 2 ss ++ ('.' :: (padL 3 ml ++ ['Z']))))))))))
+  if 0 ≤ y && y ≤ 9999 then padL 4 y.toNat ++ ('-' :: time)
+  else (if y < 0 then '-' else '+') :: (padL 9 y.natAbs ++ ('-' :: time))
+
+/-- `Datetime.String` -/
+def printDatetime (ms : Int) : String := String.ofList (printDatetimeL ms)
 
 /-! ## IP addresses -/
 
@@ -418,6 +487,66 @@ def parseIPL (cs : List Char) : Except Err IPNet :=
     | none => .error .extIP
 
 def parseIP (s : String) : Except Err IPNet := parseIPL s.toList
+
+/-! ### printing (`netip.Addr.String`, `netip.Prefix.String`, `IPAddr.String`) -/
+
+/-- dotted quad of a 32-bit number -/
+def printV4 (a : Nat) : List Char :=
+  natDigits (a / 16777216 % 256) ++ ('.' :: (natDigits (a / 65536 % 256) ++ ('.' :: (natDigits (a / 256 % 256) ++
+    ('.' :: natDigits (a % 256))))))
+
+def hexDigitChar (d : Nat) : Char := if d < 10 then Char.ofNat (48 + d) else Char.ofNat (87 + d)
+
+/-- lower-case hex without leading zeros, by structural recursion on fuel -/
+def natHexF : Nat → Nat → List Char
+  | 0, _ => []
+  | f + 1, n => if n < 16 then [hexDigitChar n] else natHexF f (n / 16) ++ [hexDigitChar (n % 16)]
+
+def natHex (n : Nat) : List Char := natHexF (n + 1) n
+
+/-- the eight 16-bit groups of a 128-bit number, most significant first -/
+def v6Groups (a : Nat) : List Nat :=
+  (List.range 8).map fun i => a / 65536 ^ (7 - i) % 65536
+
+/-- length of the run of zero groups at the head of a list -/
+def zeroRun : List Nat → Nat
+  | 0 :: r => zeroRun r + 1
+  | _ => 0
+
+/-- `appendTo6`'s search: the first longest run (length ≥ 2) of zero groups, as (start, end) -/
+def bestZeroRun : List Nat → (i : Nat) → (best : Option (Nat × Nat)) → Option (Nat × Nat)
+  | [], _, best => best
+  | g :: r, i, best =>
+    let l := zeroRun (g :: r)
+    let cur := match best with | some (s, e) => e - s | none => 0
+    bestZeroRun r (i + 1) (if l ≥ 2 && l > cur then some (i, i + l) else best)
+
+/-- the output loop of `appendTo6` over the groups from index `i` on -/
+def v6Emit (gs : List Nat) (zs ze : Nat) : Nat → Nat → List Char
+  | 0, _ => []
+  | fuel + 1, i =>
+    if i ≥ 8 then [] else
+    if i == zs then
+      ':' :: ':' :: (if ze ≥ 8 then [] else natHex (gs.getD ze 0) ++ v6Emit gs zs ze fuel (ze + 1))
+    else
+      (if i > 0 then [':'] else []) ++ natHex (gs.getD i 0) ++ v6Emit gs zs ze fuel (i + 1)
+
+/-- `netip.Addr.String` for a zone-free address -/
+def printAddr (v6 : Bool) (a : Nat) : List Char :=
+  if !v6 then printV4 a
+  else if a / 4294967296 == 0xffff then "::ffff:".toList ++ printV4 (a % 4294967296)   -- Is4In6
+  else
+    let gs := v6Groups a
+    match bestZeroRun gs 0 none with
+    | some (zs, ze) => v6Emit gs zs ze 9 0
+    | none => v6Emit gs 255 255 9 0
+
+/-- `types.IPAddr.String` -/
+def printIPL (n : IPNet) : List Char :=
+  if n.bits == (if n.v6 then 128 else 32) then printAddr n.v6 n.addr
+  else printAddr n.v6 n.addr ++ ('/' :: natDigits n.bits)
+
+def printIP (n : IPNet) : String := String.ofList (printIPL n)
 
 end CedarGo.Scalars
 namespace CedarGo
